@@ -1,300 +1,36 @@
 /-
-Pinned format tables of src/header.rs (`DxgiFormat`), src/pixel.rs (`TryFrom<DxgiFormat> for PixelInfo`,
+Format tables of src/header.rs (`DxgiFormat`), src/pixel.rs (`TryFrom<DxgiFormat> for PixelInfo`,
 `From<Format> for PixelInfo`, `PixelInfo::from_header`), src/detect.rs (`dxgi_format_to_supported`,
 `four_cc_to_dxgi`, `dxgi_to_four_cc`, `four_cc_to_supported`, `KNOWN_PIXEL_FORMATS`, `special_cases`)
 and src/format.rs (`TryFrom<Format> for DxgiFormat / FourCC / MaskPixelFormat / Dx9PixelFormat`),
 and on top of them the `Header` constructors and `to_dx9` / `to_dx10`.
 
-The tables are literal data: they do not follow the source.  The correspondence run compares
-every row with the implementation (case kinds TD / TF / TM of C09: all codes 0..300, every known
-four CC and 0..129, every `Format`), so a change of a table in the crate shows up as a
-disagreement, and the theorems of `Theorems/C09.lean` (`dx_conversion_*`) are statements about
-these pinned rows.
+The ROWS of the tables follow the source: they are taken from `SrcTables.lean`, which tools/extract_tables.py
+regenerates from /repo's working tree on every check run (the translator half of the tie). So the theorems of
+`Theorems/C09.lean` / `C18.lean` about them (`dx_conversion_*`, `dxgi_table_complete`, `constructed_wf`,
+`pinned_pixel_infos_wf`) are re-checked by the kernel for the rows the code has NOW. What stays pinned: the
+`Format` inductive (FormatEnum.lean; the translator fails when the source's enum differs) and everything that is
+code rather than a table (the lookup functions below, the constructors, `to_dx9` / `to_dx10`). The correspondence
+run still compares every row with the implementation (case kinds TD / TF / TM of C09: all codes 0..300, every known
+four CC and 0..129, every `Format`) — that now validates the translator.
 -/
 import DdsModel.Header
+import DdsModel.FormatEnum
 namespace Dds
 
-inductive Format where
-  | R8G8B8_UNORM | B8G8R8_UNORM | R8G8B8A8_UNORM | R8G8B8A8_SNORM | B8G8R8A8_UNORM | B8G8R8X8_UNORM 
-  | B5G6R5_UNORM | B5G5R5A1_UNORM | B4G4R4A4_UNORM | A4B4G4R4_UNORM | R8_SNORM | R8_UNORM 
-  | R8G8_UNORM | R8G8_SNORM | A8_UNORM | R16_UNORM | R16_SNORM | R16G16_UNORM | R16G16_SNORM 
-  | R16G16B16A16_UNORM | R16G16B16A16_SNORM | R10G10B10A2_UNORM | R11G11B10_FLOAT 
-  | R9G9B9E5_SHAREDEXP | R16_FLOAT | R16G16_FLOAT | R16G16B16A16_FLOAT | R32_FLOAT | R32G32_FLOAT 
-  | R32G32B32_FLOAT | R32G32B32A32_FLOAT | R10G10B10_XR_BIAS_A2_UNORM | AYUV | Y410 | Y416 
-  | R1_UNORM | R8G8_B8G8_UNORM | G8R8_G8B8_UNORM | UYVY | YUY2 | Y210 | Y216 | NV12 | P010 | P016 
-  | BC1_UNORM | BC2_UNORM | BC2_UNORM_PREMULTIPLIED_ALPHA | BC3_UNORM 
-  | BC3_UNORM_PREMULTIPLIED_ALPHA | BC4_UNORM | BC4_SNORM | BC5_UNORM | BC5_SNORM | BC6H_UF16 
-  | BC6H_SF16 | BC7_UNORM | ASTC_4X4_UNORM | ASTC_5X4_UNORM | ASTC_5X5_UNORM | ASTC_6X5_UNORM 
-  | ASTC_6X6_UNORM | ASTC_8X5_UNORM | ASTC_8X6_UNORM | ASTC_8X8_UNORM | ASTC_10X5_UNORM 
-  | ASTC_10X6_UNORM | ASTC_10X8_UNORM | ASTC_10X10_UNORM | ASTC_12X10_UNORM | ASTC_12X12_UNORM 
-  | BC3_UNORM_RXGB | BC3_UNORM_NORMAL 
-deriving DecidableEq, Repr, Inhabited
+/-- `impl TryFrom<Format> for DxgiFormat` (rows translated: `SrcTables.formatToDxgi`) -/
+def Format.toDxgi (f : Format) : Option Nat := SrcTables.formatToDxgi.lookup f
 
-def Format.all : List Format := [
-  .R8G8B8_UNORM, .B8G8R8_UNORM, .R8G8B8A8_UNORM, .R8G8B8A8_SNORM, .B8G8R8A8_UNORM, .B8G8R8X8_UNORM, .B5G6R5_UNORM, .B5G5R5A1_UNORM, .B4G4R4A4_UNORM, .A4B4G4R4_UNORM, .R8_SNORM, .R8_UNORM, .R8G8_UNORM, .R8G8_SNORM, .A8_UNORM, .R16_UNORM, .R16_SNORM, .R16G16_UNORM, .R16G16_SNORM, .R16G16B16A16_UNORM, .R16G16B16A16_SNORM, .R10G10B10A2_UNORM, .R11G11B10_FLOAT, .R9G9B9E5_SHAREDEXP, .R16_FLOAT, .R16G16_FLOAT, .R16G16B16A16_FLOAT, .R32_FLOAT, .R32G32_FLOAT, .R32G32B32_FLOAT, .R32G32B32A32_FLOAT, .R10G10B10_XR_BIAS_A2_UNORM, .AYUV, .Y410, .Y416, .R1_UNORM, .R8G8_B8G8_UNORM, .G8R8_G8B8_UNORM, .UYVY, .YUY2, .Y210, .Y216, .NV12, .P010, .P016, .BC1_UNORM, .BC2_UNORM, .BC2_UNORM_PREMULTIPLIED_ALPHA, .BC3_UNORM, .BC3_UNORM_PREMULTIPLIED_ALPHA, .BC4_UNORM, .BC4_SNORM, .BC5_UNORM, .BC5_SNORM, .BC6H_UF16, .BC6H_SF16, .BC7_UNORM, .ASTC_4X4_UNORM, .ASTC_5X4_UNORM, .ASTC_5X5_UNORM, .ASTC_6X5_UNORM, .ASTC_6X6_UNORM, .ASTC_8X5_UNORM, .ASTC_8X6_UNORM, .ASTC_8X8_UNORM, .ASTC_10X5_UNORM, .ASTC_10X6_UNORM, .ASTC_10X8_UNORM, .ASTC_10X10_UNORM, .ASTC_12X10_UNORM, .ASTC_12X12_UNORM, .BC3_UNORM_RXGB, .BC3_UNORM_NORMAL]
+/-- `impl TryFrom<Format> for FourCC` (rows translated: `SrcTables.formatToFourCC`) -/
+def Format.toFourCC (f : Format) : Option Nat := SrcTables.formatToFourCC.lookup f
 
-/-- `impl TryFrom<Format> for DxgiFormat` -/
-def Format.toDxgi : Format → Option Nat
-  | .R8G8B8A8_UNORM => some 28
-  | .R8G8B8A8_SNORM => some 31
-  | .B8G8R8A8_UNORM => some 87
-  | .B8G8R8X8_UNORM => some 88
-  | .B5G6R5_UNORM => some 85
-  | .B5G5R5A1_UNORM => some 86
-  | .B4G4R4A4_UNORM => some 115
-  | .A4B4G4R4_UNORM => some 191
-  | .R8_SNORM => some 63
-  | .R8_UNORM => some 61
-  | .R8G8_UNORM => some 49
-  | .R8G8_SNORM => some 51
-  | .A8_UNORM => some 65
-  | .R16_UNORM => some 56
-  | .R16_SNORM => some 58
-  | .R16G16_UNORM => some 35
-  | .R16G16_SNORM => some 37
-  | .R16G16B16A16_UNORM => some 11
-  | .R16G16B16A16_SNORM => some 13
-  | .R10G10B10A2_UNORM => some 24
-  | .R11G11B10_FLOAT => some 26
-  | .R9G9B9E5_SHAREDEXP => some 67
-  | .R16_FLOAT => some 54
-  | .R16G16_FLOAT => some 34
-  | .R16G16B16A16_FLOAT => some 10
-  | .R32_FLOAT => some 41
-  | .R32G32_FLOAT => some 16
-  | .R32G32B32_FLOAT => some 6
-  | .R32G32B32A32_FLOAT => some 2
-  | .R10G10B10_XR_BIAS_A2_UNORM => some 89
-  | .AYUV => some 100
-  | .Y410 => some 101
-  | .Y416 => some 102
-  | .R1_UNORM => some 66
-  | .R8G8_B8G8_UNORM => some 68
-  | .G8R8_G8B8_UNORM => some 69
-  | .YUY2 => some 107
-  | .Y210 => some 108
-  | .Y216 => some 109
-  | .NV12 => some 103
-  | .P010 => some 104
-  | .P016 => some 105
-  | .BC1_UNORM => some 71
-  | .BC2_UNORM => some 74
-  | .BC3_UNORM => some 77
-  | .BC4_UNORM => some 80
-  | .BC4_SNORM => some 81
-  | .BC5_UNORM => some 83
-  | .BC5_SNORM => some 84
-  | .BC6H_UF16 => some 95
-  | .BC6H_SF16 => some 96
-  | .BC7_UNORM => some 98
-  | .ASTC_4X4_UNORM => some 134
-  | .ASTC_5X4_UNORM => some 138
-  | .ASTC_5X5_UNORM => some 142
-  | .ASTC_6X5_UNORM => some 146
-  | .ASTC_6X6_UNORM => some 150
-  | .ASTC_8X5_UNORM => some 154
-  | .ASTC_8X6_UNORM => some 158
-  | .ASTC_8X8_UNORM => some 162
-  | .ASTC_10X5_UNORM => some 166
-  | .ASTC_10X6_UNORM => some 170
-  | .ASTC_10X8_UNORM => some 174
-  | .ASTC_10X10_UNORM => some 178
-  | .ASTC_12X10_UNORM => some 182
-  | .ASTC_12X12_UNORM => some 186
-  | .BC3_UNORM_NORMAL => some 77
-  | _ => none
+/-- one row per named `DxgiFormat` constant: `PixelInfo::try_from`, `to_linear`, `has_alpha`,
+`detect::dxgi_format_to_supported` (fields `code name px linear hasAlpha supported`) -/
+abbrev DxgiRow := SrcTables.DxgiRow
 
-/-- `impl TryFrom<Format> for FourCC` -/
-def Format.toFourCC : Format → Option Nat
-  | .R8G8_B8G8_UNORM => some FOURCC_RGBG
-  | .G8R8_G8B8_UNORM => some FOURCC_GRGB
-  | .UYVY => some FOURCC_UYVY
-  | .YUY2 => some FOURCC_YUY2
-  | .BC1_UNORM => some FOURCC_DXT1
-  | .BC2_UNORM => some FOURCC_DXT3
-  | .BC2_UNORM_PREMULTIPLIED_ALPHA => some FOURCC_DXT2
-  | .BC3_UNORM => some FOURCC_DXT5
-  | .BC3_UNORM_PREMULTIPLIED_ALPHA => some FOURCC_DXT4
-  | .BC4_UNORM => some FOURCC_BC4U
-  | .BC4_SNORM => some FOURCC_BC4S
-  | .BC5_UNORM => some FOURCC_BC5U
-  | .BC5_SNORM => some FOURCC_BC5S
-  | .BC3_UNORM_RXGB => some FOURCC_RXGB
-  | _ => none
-
-/-- one row per valid `DxgiFormat` code: `PixelInfo::try_from`, `to_linear`, `has_alpha`,
-`detect::dxgi_format_to_supported` -/
-structure DxgiRow where
-  code : Nat
-  px : Option PixelInfo
-  linear : Nat
-  hasAlpha : Bool
-  supported : Option Format
-deriving Repr, Inhabited
-
-def dxgiRows : List DxgiRow := [
-  ⟨0, none, 0, false, none⟩,
-  ⟨1, some (.fixed 16), 1, true, some .R32G32B32A32_FLOAT⟩,
-  ⟨2, some (.fixed 16), 2, true, some .R32G32B32A32_FLOAT⟩,
-  ⟨3, some (.fixed 16), 3, true, none⟩,
-  ⟨4, some (.fixed 16), 4, true, none⟩,
-  ⟨5, some (.fixed 12), 5, false, some .R32G32B32_FLOAT⟩,
-  ⟨6, some (.fixed 12), 6, false, some .R32G32B32_FLOAT⟩,
-  ⟨7, some (.fixed 12), 7, false, none⟩,
-  ⟨8, some (.fixed 12), 8, false, none⟩,
-  ⟨9, some (.fixed 8), 9, true, some .R16G16B16A16_UNORM⟩,
-  ⟨10, some (.fixed 8), 10, true, some .R16G16B16A16_FLOAT⟩,
-  ⟨11, some (.fixed 8), 11, true, some .R16G16B16A16_UNORM⟩,
-  ⟨12, some (.fixed 8), 12, true, none⟩,
-  ⟨13, some (.fixed 8), 13, true, some .R16G16B16A16_SNORM⟩,
-  ⟨14, some (.fixed 8), 14, true, none⟩,
-  ⟨15, some (.fixed 8), 15, false, some .R32G32_FLOAT⟩,
-  ⟨16, some (.fixed 8), 16, false, some .R32G32_FLOAT⟩,
-  ⟨17, some (.fixed 8), 17, false, none⟩,
-  ⟨18, some (.fixed 8), 18, false, none⟩,
-  ⟨19, some (.fixed 8), 19, false, none⟩,
-  ⟨20, some (.fixed 8), 20, false, none⟩,
-  ⟨21, some (.fixed 8), 21, false, none⟩,
-  ⟨22, some (.fixed 8), 22, false, none⟩,
-  ⟨23, some (.fixed 4), 23, true, some .R10G10B10A2_UNORM⟩,
-  ⟨24, some (.fixed 4), 24, true, some .R10G10B10A2_UNORM⟩,
-  ⟨25, some (.fixed 4), 25, true, none⟩,
-  ⟨26, some (.fixed 4), 26, false, some .R11G11B10_FLOAT⟩,
-  ⟨27, some (.fixed 4), 27, true, some .R8G8B8A8_UNORM⟩,
-  ⟨28, some (.fixed 4), 28, true, some .R8G8B8A8_UNORM⟩,
-  ⟨29, some (.fixed 4), 28, true, some .R8G8B8A8_UNORM⟩,
-  ⟨30, some (.fixed 4), 30, true, none⟩,
-  ⟨31, some (.fixed 4), 31, true, some .R8G8B8A8_SNORM⟩,
-  ⟨32, some (.fixed 4), 32, true, none⟩,
-  ⟨33, some (.fixed 4), 33, false, some .R16G16_UNORM⟩,
-  ⟨34, some (.fixed 4), 34, false, some .R16G16_FLOAT⟩,
-  ⟨35, some (.fixed 4), 35, false, some .R16G16_UNORM⟩,
-  ⟨36, some (.fixed 4), 36, false, none⟩,
-  ⟨37, some (.fixed 4), 37, false, some .R16G16_SNORM⟩,
-  ⟨38, some (.fixed 4), 38, false, none⟩,
-  ⟨39, some (.fixed 4), 39, false, some .R32_FLOAT⟩,
-  ⟨40, some (.fixed 4), 40, false, none⟩,
-  ⟨41, some (.fixed 4), 41, false, some .R32_FLOAT⟩,
-  ⟨42, some (.fixed 4), 42, false, none⟩,
-  ⟨43, some (.fixed 4), 43, false, none⟩,
-  ⟨44, some (.fixed 4), 44, false, none⟩,
-  ⟨45, some (.fixed 4), 45, false, none⟩,
-  ⟨46, some (.fixed 4), 46, false, none⟩,
-  ⟨47, some (.fixed 4), 47, false, none⟩,
-  ⟨48, some (.fixed 2), 48, false, none⟩,
-  ⟨49, some (.fixed 2), 49, false, some .R8G8_UNORM⟩,
-  ⟨50, some (.fixed 2), 50, false, none⟩,
-  ⟨51, some (.fixed 2), 51, false, some .R8G8_SNORM⟩,
-  ⟨52, some (.fixed 2), 52, false, none⟩,
-  ⟨53, some (.fixed 2), 53, false, some .R16_UNORM⟩,
-  ⟨54, some (.fixed 2), 54, false, some .R16_FLOAT⟩,
-  ⟨55, some (.fixed 2), 55, false, none⟩,
-  ⟨56, some (.fixed 2), 56, false, some .R16_UNORM⟩,
-  ⟨57, some (.fixed 2), 57, false, none⟩,
-  ⟨58, some (.fixed 2), 58, false, some .R16_SNORM⟩,
-  ⟨59, some (.fixed 2), 59, false, none⟩,
-  ⟨60, some (.fixed 1), 60, false, some .R8_UNORM⟩,
-  ⟨61, some (.fixed 1), 61, false, some .R8_UNORM⟩,
-  ⟨62, some (.fixed 1), 62, false, none⟩,
-  ⟨63, some (.fixed 1), 63, false, some .R8_SNORM⟩,
-  ⟨64, some (.fixed 1), 64, false, none⟩,
-  ⟨65, some (.fixed 1), 65, true, some .A8_UNORM⟩,
-  ⟨66, some (.block 1 8 1), 66, false, some .R1_UNORM⟩,
-  ⟨67, some (.fixed 4), 67, false, some .R9G9B9E5_SHAREDEXP⟩,
-  ⟨68, some (.block 4 2 1), 68, false, some .R8G8_B8G8_UNORM⟩,
-  ⟨69, some (.block 4 2 1), 69, false, some .G8R8_G8B8_UNORM⟩,
-  ⟨70, some (.block 8 4 4), 70, true, some .BC1_UNORM⟩,
-  ⟨71, some (.block 8 4 4), 71, true, some .BC1_UNORM⟩,
-  ⟨72, some (.block 8 4 4), 71, true, some .BC1_UNORM⟩,
-  ⟨73, some (.block 16 4 4), 73, true, some .BC2_UNORM⟩,
-  ⟨74, some (.block 16 4 4), 74, true, some .BC2_UNORM⟩,
-  ⟨75, some (.block 16 4 4), 74, true, some .BC2_UNORM⟩,
-  ⟨76, some (.block 16 4 4), 76, true, some .BC3_UNORM⟩,
-  ⟨77, some (.block 16 4 4), 77, true, some .BC3_UNORM⟩,
-  ⟨78, some (.block 16 4 4), 77, true, some .BC3_UNORM⟩,
-  ⟨79, some (.block 8 4 4), 79, false, some .BC4_UNORM⟩,
-  ⟨80, some (.block 8 4 4), 80, false, some .BC4_UNORM⟩,
-  ⟨81, some (.block 8 4 4), 81, false, some .BC4_SNORM⟩,
-  ⟨82, some (.block 16 4 4), 82, false, some .BC5_UNORM⟩,
-  ⟨83, some (.block 16 4 4), 83, false, some .BC5_UNORM⟩,
-  ⟨84, some (.block 16 4 4), 84, false, some .BC5_SNORM⟩,
-  ⟨85, some (.fixed 2), 85, false, some .B5G6R5_UNORM⟩,
-  ⟨86, some (.fixed 2), 86, true, some .B5G5R5A1_UNORM⟩,
-  ⟨87, some (.fixed 4), 87, true, some .B8G8R8A8_UNORM⟩,
-  ⟨88, some (.fixed 4), 88, false, some .B8G8R8X8_UNORM⟩,
-  ⟨89, some (.fixed 4), 89, true, some .R10G10B10_XR_BIAS_A2_UNORM⟩,
-  ⟨90, some (.fixed 4), 90, true, some .B8G8R8A8_UNORM⟩,
-  ⟨91, some (.fixed 4), 87, true, some .B8G8R8A8_UNORM⟩,
-  ⟨92, some (.fixed 4), 92, false, some .B8G8R8X8_UNORM⟩,
-  ⟨93, some (.fixed 4), 88, false, some .B8G8R8X8_UNORM⟩,
-  ⟨94, some (.block 16 4 4), 94, false, some .BC6H_UF16⟩,
-  ⟨95, some (.block 16 4 4), 95, false, some .BC6H_UF16⟩,
-  ⟨96, some (.block 16 4 4), 96, false, some .BC6H_SF16⟩,
-  ⟨97, some (.block 16 4 4), 97, true, some .BC7_UNORM⟩,
-  ⟨98, some (.block 16 4 4), 98, true, some .BC7_UNORM⟩,
-  ⟨99, some (.block 16 4 4), 98, true, some .BC7_UNORM⟩,
-  ⟨100, some (.fixed 4), 100, true, some .AYUV⟩,
-  ⟨101, some (.fixed 4), 101, false, some .Y410⟩,
-  ⟨102, some (.fixed 8), 102, false, some .Y416⟩,
-  ⟨103, some (.biPlanar 1 2 2 2), 103, false, some .NV12⟩,
-  ⟨104, some (.biPlanar 2 4 2 2), 104, false, some .P010⟩,
-  ⟨105, some (.biPlanar 2 4 2 2), 105, false, some .P016⟩,
-  ⟨106, some (.biPlanar 1 2 2 2), 106, false, none⟩,
-  ⟨107, some (.block 4 2 1), 107, false, some .YUY2⟩,
-  ⟨108, some (.block 8 2 1), 108, false, some .Y210⟩,
-  ⟨109, some (.block 8 2 1), 109, false, some .Y216⟩,
-  ⟨110, some (.biPlanar 1 2 4 1), 110, false, none⟩,
-  ⟨111, some (.fixed 1), 111, true, none⟩,
-  ⟨112, some (.fixed 1), 112, true, none⟩,
-  ⟨113, some (.fixed 1), 113, false, none⟩,
-  ⟨114, some (.fixed 2), 114, true, none⟩,
-  ⟨115, some (.fixed 2), 115, true, some .B4G4R4A4_UNORM⟩,
-  ⟨130, some (.biPlanar 1 2 2 1), 130, false, none⟩,
-  ⟨131, none, 131, false, none⟩,
-  ⟨132, some (.fixed 4), 132, false, none⟩,
-  ⟨133, some (.block 16 4 4), 133, true, some .ASTC_4X4_UNORM⟩,
-  ⟨134, some (.block 16 4 4), 134, true, some .ASTC_4X4_UNORM⟩,
-  ⟨135, some (.block 16 4 4), 134, true, some .ASTC_4X4_UNORM⟩,
-  ⟨137, some (.block 16 5 4), 137, true, some .ASTC_5X4_UNORM⟩,
-  ⟨138, some (.block 16 5 4), 138, true, some .ASTC_5X4_UNORM⟩,
-  ⟨139, some (.block 16 5 4), 138, true, some .ASTC_5X4_UNORM⟩,
-  ⟨141, some (.block 16 5 5), 141, true, some .ASTC_5X5_UNORM⟩,
-  ⟨142, some (.block 16 5 5), 142, true, some .ASTC_5X5_UNORM⟩,
-  ⟨143, some (.block 16 5 5), 142, true, some .ASTC_5X5_UNORM⟩,
-  ⟨145, some (.block 16 6 5), 145, true, some .ASTC_6X5_UNORM⟩,
-  ⟨146, some (.block 16 6 5), 146, true, some .ASTC_6X5_UNORM⟩,
-  ⟨147, some (.block 16 6 5), 146, true, some .ASTC_6X5_UNORM⟩,
-  ⟨149, some (.block 16 6 6), 149, true, some .ASTC_6X6_UNORM⟩,
-  ⟨150, some (.block 16 6 6), 150, true, some .ASTC_6X6_UNORM⟩,
-  ⟨151, some (.block 16 6 6), 150, true, some .ASTC_6X6_UNORM⟩,
-  ⟨153, some (.block 16 8 5), 153, true, some .ASTC_8X5_UNORM⟩,
-  ⟨154, some (.block 16 8 5), 154, true, some .ASTC_8X5_UNORM⟩,
-  ⟨155, some (.block 16 8 5), 154, true, some .ASTC_8X5_UNORM⟩,
-  ⟨157, some (.block 16 8 6), 157, true, some .ASTC_8X6_UNORM⟩,
-  ⟨158, some (.block 16 8 6), 158, true, some .ASTC_8X6_UNORM⟩,
-  ⟨159, some (.block 16 8 6), 158, true, some .ASTC_8X6_UNORM⟩,
-  ⟨161, some (.block 16 8 8), 161, true, some .ASTC_8X8_UNORM⟩,
-  ⟨162, some (.block 16 8 8), 162, true, some .ASTC_8X8_UNORM⟩,
-  ⟨163, some (.block 16 8 8), 162, true, some .ASTC_8X8_UNORM⟩,
-  ⟨165, some (.block 16 10 5), 165, true, some .ASTC_10X5_UNORM⟩,
-  ⟨166, some (.block 16 10 5), 166, true, some .ASTC_10X5_UNORM⟩,
-  ⟨167, some (.block 16 10 5), 166, true, some .ASTC_10X5_UNORM⟩,
-  ⟨169, some (.block 16 10 6), 169, true, some .ASTC_10X6_UNORM⟩,
-  ⟨170, some (.block 16 10 6), 170, true, some .ASTC_10X6_UNORM⟩,
-  ⟨171, some (.block 16 10 6), 170, true, some .ASTC_10X6_UNORM⟩,
-  ⟨173, some (.block 16 10 8), 173, true, some .ASTC_10X8_UNORM⟩,
-  ⟨174, some (.block 16 10 8), 174, true, some .ASTC_10X8_UNORM⟩,
-  ⟨175, some (.block 16 10 8), 174, true, some .ASTC_10X8_UNORM⟩,
-  ⟨177, some (.block 16 10 10), 177, true, some .ASTC_10X10_UNORM⟩,
-  ⟨178, some (.block 16 10 10), 178, true, some .ASTC_10X10_UNORM⟩,
-  ⟨179, some (.block 16 10 10), 178, true, some .ASTC_10X10_UNORM⟩,
-  ⟨181, some (.block 16 12 10), 181, true, some .ASTC_12X10_UNORM⟩,
-  ⟨182, some (.block 16 12 10), 182, true, some .ASTC_12X10_UNORM⟩,
-  ⟨183, some (.block 16 12 10), 182, true, some .ASTC_12X10_UNORM⟩,
-  ⟨185, some (.block 16 12 12), 185, true, some .ASTC_12X12_UNORM⟩,
-  ⟨186, some (.block 16 12 12), 186, true, some .ASTC_12X12_UNORM⟩,
-  ⟨187, some (.block 16 12 12), 186, true, some .ASTC_12X12_UNORM⟩,
-  ⟨191, some (.fixed 2), 191, true, some .A4B4G4R4_UNORM⟩]
+/-- the rows, translated from `define_dxgi_formats!` and the four `match`es over `DxgiFormat`
+(`C09.dxgi_table_complete`: the named constants are exactly the accepted codes, each named once) -/
+def dxgiRows : List DxgiRow := SrcTables.dxgiNamed
 
 def dxgiRow? (c : Nat) : Option DxgiRow := dxgiRows.find? (·.code == c)
 
@@ -310,58 +46,27 @@ def dxgiToSupported (c : Nat) : Option Format := (dxgiRow? c).bind (·.supported
 def DXGI_BC2_UNORM : Nat := 74
 def DXGI_BC3_UNORM : Nat := 77
 
-/-- `detect::four_cc_to_dxgi` -/
-def fourCCToDxgiTable : List (Nat × Nat) :=
-  [(FOURCC_DXT1, 71), (FOURCC_DXT3, 74), (FOURCC_DXT5, 77),
-   (FOURCC_ATI1, 80), (FOURCC_BC4U, 80), (FOURCC_BC4S, 81),
-   (FOURCC_ATI2, 83), (FOURCC_BC5U, 83), (FOURCC_BC5S, 84),
-   (FOURCC_RGBG, 68), (FOURCC_GRGB, 69), (FOURCC_YUY2, 107),
-   (36, 11), (110, 13), (111, 54), (112, 34), (113, 10), (114, 41), (115, 16), (116, 2)]
+/-- `detect::four_cc_to_dxgi` (rows translated) -/
+def fourCCToDxgiTable : List (Nat × Nat) := SrcTables.fourCCToDxgi
 def fourCCToDxgi (c : Nat) : Option Nat := fourCCToDxgiTable.lookup c
 
-/-- `detect::dxgi_to_four_cc` -/
-def dxgiToFourCCTable : List (Nat × Nat) :=
-  [(71, FOURCC_DXT1), (74, FOURCC_DXT3), (77, FOURCC_DXT5), (80, FOURCC_BC4U), (81, FOURCC_BC4S),
-   (83, FOURCC_BC5U), (84, FOURCC_BC5S), (68, FOURCC_RGBG), (69, FOURCC_GRGB), (107, FOURCC_YUY2),
-   (11, 36), (13, 110), (54, 111), (34, 112), (10, 113), (41, 114), (16, 115), (2, 116)]
+/-- `detect::dxgi_to_four_cc` (rows translated) -/
+def dxgiToFourCCTable : List (Nat × Nat) := SrcTables.dxgiToFourCC
 def dxgiToFourCC (d : Nat) : Option Nat := dxgiToFourCCTable.lookup d
 
-/-- `detect::four_cc_to_supported` -/
+/-- `detect::four_cc_to_supported`: through the DXGI code first, then the four CCs without one (rows translated;
+the translator checks that the function still has this two-stage shape) -/
 def fourCCToSupported (c : Nat) : Option Format :=
   match fourCCToDxgi c with
   | some d => dxgiToSupported d
-  | none =>
-    if c = FOURCC_DXT2 then some .BC2_UNORM_PREMULTIPLIED_ALPHA
-    else if c = FOURCC_DXT4 then some .BC3_UNORM_PREMULTIPLIED_ALPHA
-    else if c = FOURCC_RXGB then some .BC3_UNORM_RXGB
-    else if c = FOURCC_UYVY then some .UYVY
-    else none
+  | none => SrcTables.fourCCDirect.lookup c
 
-private def pf (flags : Nat) (bc : RgbBitCount) (r g b a : Nat) : MaskPixelFormat :=
-  { flags, rgbBitCount := bc, rMask := r, gMask := g, bMask := b, aMask := a }
-
-/-- `detect::KNOWN_PIXEL_FORMATS` -/
+/-- `detect::KNOWN_PIXEL_FORMATS` (rows translated; the bit count of a row is one of the four `RgbBitCount`s —
+`parse_bit_count` would not compile otherwise — and `knownPixelFormats_complete` re-checks that no row is dropped) -/
 def knownPixelFormats : List (MaskPixelFormat × Option Nat × Format) :=
-  [ (pf PF_ALPHA .c8 0 0 0 0xFF, some 65, .A8_UNORM),
-    (pf PF_LUMINANCE .c8 0xFF 0 0 0, some 61, .R8_UNORM),
-    (pf (PF_RGB ||| PF_LUMINANCE) .c8 0xFF 0 0 0, some 61, .R8_UNORM),
-    (pf PF_LUMINANCE .c16 0xFFFF 0 0 0, some 56, .R16_UNORM),
-    (pf PF_RGB .c16 0xF800 0x07E0 0x001F 0, some 85, .B5G6R5_UNORM),
-    (pf PF_RGB .c32 0xFF0000 0xFF00 0xFF 0, some 88, .B8G8R8X8_UNORM),
-    (pf PF_RGB .c32 0xFFFF 0xFFFF0000 0 0, some 35, .R16G16_UNORM),
-    (pf PF_RGB .c16 0xFF 0xFF00 0 0, some 49, .R8G8_UNORM),
-    (pf PF_RGB .c24 0xFF0000 0xFF00 0xFF 0, none, .B8G8R8_UNORM),
-    (pf PF_RGB .c24 0xFF 0xFF00 0xFF0000 0, none, .R8G8B8_UNORM),
-    (pf (PF_RGB ||| PF_ALPHAPIXELS) .c16 0xF00 0xF0 0xF 0xF000, some 115, .B4G4R4A4_UNORM),
-    (pf (PF_RGB ||| PF_ALPHAPIXELS) .c16 0x7C00 0x3E0 0x1F 0x8000, some 86, .B5G5R5A1_UNORM),
-    (pf (PF_RGB ||| PF_ALPHAPIXELS) .c32 0xFF0000 0xFF00 0xFF 0xFF000000, some 87, .B8G8R8A8_UNORM),
-    (pf (PF_RGB ||| PF_ALPHAPIXELS) .c32 0xFF 0xFF00 0xFF0000 0xFF000000, some 28, .R8G8B8A8_UNORM),
-    (pf (PF_RGB ||| PF_ALPHAPIXELS) .c32 0x3FF00000 0xFFC00 0x3FF 0xC0000000, some 24,
-      .R10G10B10A2_UNORM),
-    (pf PF_BUMP_DUDV .c32 0xFF 0xFF00 0xFF0000 0xFF000000, some 31, .R8G8B8A8_SNORM),
-    (pf PF_BUMP_DUDV .c16 0xFF 0xFF00 0 0, some 51, .R8G8_SNORM),
-    (pf PF_BUMP_DUDV .c32 0xFFFF 0xFFFF0000 0 0, some 37, .R16G16_SNORM),
-    (pf (PF_LUMINANCE ||| PF_ALPHAPIXELS) .c16 0xFF 0 0 0xFF00, some 49, .R8G8_UNORM) ]
+  SrcTables.knownPixelFormats.filterMap fun r =>
+    (RgbBitCount.ofU32 r.bitCount).map fun bc =>
+      ({ flags := r.flags, rgbBitCount := bc, rMask := r.r, gMask := r.g, bMask := r.b, aMask := r.a }, r.dxgi, r.fmt)
 
 /-- `detect::masked_to_dxgi` -/
 def maskedToDxgi (m : MaskPixelFormat) : Option Nat :=
@@ -378,12 +83,9 @@ def Format.toMask (f : Format) : Option MaskPixelFormat :=
 
 /-- `impl From<Format> for PixelInfo`; `none` = the `unwrap()`s panic -/
 def Format.pixelInfo (f : Format) : Option PixelInfo :=
-  match f with
-  | .R8G8B8_UNORM | .B8G8R8_UNORM => some (.fixed 3)
-  | .UYVY => some (.block 4 2 1)
-  | .BC2_UNORM_PREMULTIPLIED_ALPHA | .BC3_UNORM_PREMULTIPLIED_ALPHA | .BC3_UNORM_RXGB =>
-    some (.block 16 4 4)
-  | f => f.toDxgi.bind dxgiPixelInfo
+  match SrcTables.formatPixelInfoDirect.lookup f with
+  | some p => some p          -- the explicit arms (rows translated)
+  | none => f.toDxgi.bind dxgiPixelInfo
 
 /-- `PixelInfo::from_header` (the `Err` cases are `none`) -/
 def pixelInfoOf : Header → Option PixelInfo
